@@ -1,3 +1,4 @@
+#![recursion_limit = "1024"]
 //! parsesim — deterministic simulation of call histories against derive-generated parsers (C18, C20 clause 2).
 //!
 //!   list                               grammars, rules, kinds (JSON)
@@ -88,7 +89,7 @@ fn print_report(r: &exec::Report) {
                "eq_false_pairs_same_first_element": p.eq_false_pairs_same_first_element, "pairs_compared": p.pairs_compared,
                "inner_pairs_compared": p.inner_pairs_compared, "ops_on_other_threads": p.ops_on_other_threads,
                "successes": p.successes, "failures": p.failures, "skipped_ops": p.skipped_ops,
-               "refills": p.refills, "big_input_successes": p.big_input_successes, "same_address_and_length_new_content": p.same_address_and_length_new_content, "reparse_checked": p.reparse_checked, "clone_checked": p.clone_checked, "max_live_results": p.max_live_results})
+               "refills": p.refills, "clone_from_checked": p.clone_from_checked, "big_input_successes": p.big_input_successes, "same_address_and_length_new_content": p.same_address_and_length_new_content, "reparse_checked": p.reparse_checked, "clone_checked": p.clone_checked, "max_live_results": p.max_live_results})
     )
     .unwrap();
 }
